@@ -36,7 +36,7 @@ func splitCell(id string) (fm string, shape []string) {
 }
 
 func renderKey(fm string, shape []string, clause string) string {
-	names := paramNames[fm]
+	names := paramNames[strings.Replace(fm, "arr2:", "arr:", 1)]
 	p := make([]string, len(shape))
 	for i, s := range shape {
 		switch {
@@ -49,6 +49,10 @@ func renderKey(fm string, shape []string, clause string) string {
 		}
 	}
 	name := strings.TrimPrefix(fm, "arr:")
+	if strings.HasPrefix(fm, "arr2:") {
+		// two-step family: the method is called on a receiver that an earlier call has already changed
+		name = "after-prior-call." + strings.TrimPrefix(fm, "arr2:")
+	}
 	if strings.HasPrefix(fm, "str:") {
 		name = "string." + strings.TrimPrefix(fm, "str:")
 	}
@@ -56,7 +60,7 @@ func renderKey(fm string, shape []string, clause string) string {
 	if strings.HasSuffix(fm, "()") {
 		return name + "()(" + strings.Join(p, ",") + "):" + clause
 	}
-	if fm == "arr:length" || fm == "str:length" {
+	if fm == "arr:length" || fm == "str:length" || fm == "arr2:length" {
 		return name + " property(" + strings.Join(p, ",") + "):" + clause
 	}
 	return name + "(" + strings.Join(p, ",") + "):" + clause
